@@ -1509,8 +1509,10 @@ class Server:
         """
         :py:func:`asyncio.start_server`, which never leaves a listening socket
         behind when the caller is cancelled (connection is closing while its
-        passive server is still starting): start-up is finished in background,
-        the socket is closed at once and `release` is called after that.
+        passive server is still starting): start-up is finished, the socket
+        is closed at once, `release` is called after that, and only then the
+        cancellation goes on - so nothing of it is left when the session (or
+        `close`) is through.
         """
         task = asyncio.create_task(asyncio.start_server(*args, **kwargs))
         try:
@@ -1523,6 +1525,7 @@ class Server:
                 release()
 
             task.add_done_callback(cleanup)
+            await asyncio.wait([task])
             raise
 
     async def _start_passive_server(self, connection, handler_callback):
